@@ -67,6 +67,78 @@ func returnsNilAndErr(stmts []ast.Stmt) bool {
 }
 
 func ruleR14(c *Ctx, prop string) {
+	n0 := len(c.obls)
+	c.ruleR14Structural(prop)
+	c.applyCastTable(n0)
+}
+
+// applyCastTable: Cast's clauses as the finite table decides them, where the structural reading reports something.
+func (c *Ctx) applyCastTable(from int) {
+	keyOf := func(k string) (string, bool) {
+		switch {
+		case strings.HasPrefix(k, "R14:target:"):
+			return "target:" + strings.TrimPrefix(k, "R14:target:"), true
+		case strings.HasPrefix(k, "R14:source:"):
+			return "source:" + strings.TrimPrefix(k, "R14:source:"), true
+		case k == "R14:cast:shape":
+			return "shape", true
+		case k == "R14:convert:elementwise":
+			return "elementwise", true
+		case k == "R14:cast:direct":
+			return "direct", true
+		case k == "R14:anchors":
+			return "", true
+		}
+		return "", false
+	}
+	needed := false
+	for _, o := range c.obls[from:] {
+		if _, mine := keyOf(o.Key); mine && !o.Control && (o.Status == StViolated || o.Status == StUndecided) {
+			needed = true
+		}
+	}
+	if !needed {
+		return
+	}
+	t := c.castTable()
+	if !t.known {
+		return
+	}
+	c.counts["R14.cast_table_cells"] = t.cells
+	seen := map[string]bool{}
+	for i := from; i < len(c.obls); i++ {
+		o := &c.obls[i]
+		tk, mine := keyOf(o.Key)
+		if !mine || o.Control {
+			continue
+		}
+		seen[tk] = true
+		if o.Key == "R14:anchors" {
+			if len(t.bads) == 0 {
+				o.Status, o.Why = StNote, "conversion functions not found by role; Cast is decided by the finite table"
+			}
+			continue
+		}
+		if bad := t.bads[tk]; bad != "" {
+			o.Status, o.Why = StViolated, bad
+		} else if o.Status == StViolated || o.Status == StUndecided {
+			o.Status, o.Why = StDischarged, fmt.Sprintf("by the finite Cast table (%d cells: 13 source types x 19 target codes); the structural reading does not recognise the factoring", t.cells)
+		}
+	}
+	// what the table found and no structural obligation carries
+	var ks []string
+	for k := range t.bads {
+		if !seen[k] {
+			ks = append(ks, k)
+		}
+	}
+	sort.Strings(ks)
+	for _, k := range ks {
+		c.violate("R14", "R14:"+strings.Replace(k, "elementwise", "convert:elementwise", 1), "", t.bads[k])
+	}
+}
+
+func (c *Ctx) ruleR14Structural(prop string) {
 	info := c.typesInfo(pkgOps)
 	var convBacking, convTensor, newBacking *ast.FuncDecl
 	for _, fd := range c.funcDeclsOf(pkgOps) {
@@ -486,6 +558,14 @@ func (c *Ctx) checkConstantTablesAST() {
 		}
 		return true
 	})
+	if !posGate {
+		// however the test is written: Apply walked with shape lists that hold a non-positive extent
+		if oi := c.opByName("ConstantOfShape"); oi != nil && oi.methods["Apply"] != nil {
+			if known, ok := c.cosPositiveDimsTable(oi.methods["Apply"]); known {
+				posGate = ok
+			}
+		}
+	}
 	c.decide(posGate, "R14", "R14:cos:positive-dims", c.pos(cosApply.Pos()), "non-positive extents are refused", "ConstantOfShape builds tensors with non-positive extents (panic in gorgonia)")
 	// the fill: every element is the value - the audited form is zeros + AddScalar(value) of gorgonia (a hand-written
 	// fill loop has to get every element, for every element count and type)
@@ -983,4 +1063,33 @@ func (c *Ctx) ofDtypeOfRecvField(m *ssa.Function, field string) bool {
 		}
 	}
 	return false
+}
+
+// cosPositiveDimsTable walks ConstantOfShape.Apply with the requested shape bound to small lists: a list with an
+// extent <= 0 must end in an error on every path the walk can follow (known=false when it cannot tell).
+func (c *Ctx) cosPositiveDimsTable(apply *ssa.Function) (known, ok bool) {
+	st := c.libInit()
+	if len(st.failed) > 0 {
+		return false, false
+	}
+	for _, l := range [][]int64{{0}, {2, 0}, {-1, 2}, {3, -2, 1}, {0, 0}} {
+		l := l
+		p := &pinterp{c: c, budget: 200000, objects: true, globals: st.globals}
+		p.rankOf = func(k int64) (int64, bool) { return 1, k == 0 }
+		p.extentOf = func(k, i int64) (int64, bool) { return int64(len(l)), k == 0 && i == 0 }
+		p.present = func(k int64) bool { return k == 0 }
+		p.inputList = func(k int64) ([]int64, bool) { return l, k == 0 }
+		res, _ := p.run(apply, []pval{{k: pRecv}, {k: pInputs}}, 0, st.heap.clone())
+		if p.aborted || len(res) != 2 {
+			return false, false
+		}
+		switch {
+		case nonNilKind(res[1].k):
+		case res[1].k == pNil:
+			return true, false
+		default:
+			return false, false
+		}
+	}
+	return true, true
 }
